@@ -22,7 +22,7 @@ def one(item):
         for p in PROPS:
             r = subprocess.run(['/venv/bin/python', os.path.join(HERE, 'check.py'), p, '--root', root], capture_output=True, text=True)
             if r.returncode:
-                rules = sorted(set(re.findall(r'\[([A-Z]+[0-9]*[A-Z]?)\]', '\n'.join(l for l in r.stdout.splitlines() if l.startswith('  python/')))))
+                rules = sorted(set(m_.group(1) for l in r.stdout.splitlines() if l.startswith('  python/') for m_ in [re.match(r'\s*python/\S+: \[([A-Z]+[0-9]*[A-Z]?)\]', l)] if m_))
                 out[p] = {'exit': r.returncode, 'rules': rules}
     finally:
         shutil.rmtree(root, ignore_errors=True)
